@@ -3,7 +3,8 @@
 Complete enumeration of families of expression trees (ref/c02space.py) x all 16 log-status assignments of
 (x, y, z, w) x up to 3 evaluation points chosen by the reference inside the tree's domain and away from its kinks.
 Trees are packed ~24 per generated model (`v_k = tree_k`, the first lead-free ones again as measurement
-equations `o_j = tree*(1+u_j)`), together with four fixed closing equations that carry the shocks.
+equations `o_j = tree*(1+u_j)`), together with four fixed closing equations that carry the shocks and give the
+model lags and leads of 2 (two terminal columns in the stacked-time oracle).
 
 Oracles (all against ref.expr derivatives, self-checked against Richardson differences on every tree):
  (a) Simultaneous.systemize(): A, B, D, F, G, J entry by entry (value, row, column, zero elsewhere);
@@ -56,8 +57,10 @@ MANIFEST_ENTRY = dict(level="exploration", design="DESIGN.md section 4 / C02",
          "terminal='data'; Richardson difference of eval_func for the rows that read the first-order terminal value): all "
          "16 assignments for D12 (quick) and D12/D3U/D3L/D3R (thorough), 4 assignments for D3U in quick, systemize only for D3V.",
     note="Trusted: ref/expr.py + ref/c02space.py (plain math; two independent rule sets and a Richardson difference must "
-         "agree on every row before it is used). Two genuine defects are recorded in known_findings.d/c02.json (non-flat "
-         "steady Jacobian rows for t+k; maximum with a non-constant second argument). Not covered: depth-3 trees with a "
+         "agree on every row before it is used). The two defects this check exposed (non-flat steady Jacobian rows for t+k taken at t; "
+         "maximum dropping the derivative of a non-constant second argument) were repaired in /repo; their violation "
+         "classes keep a narrow signature. The closing equations give every model lags of 2 and leads of 2 on several "
+         "variables, so the first-order terminal correction spans two terminal columns. Not covered: depth-3 trees with a "
          "composite argument that contains p or a number on both sides, points off the 8-point table, more than one "
          "shift per variable inside a tree, the C/H vectors and the dynamic-identity rows (not in the statement).")
 ASSUMPTIONS = [
